@@ -74,6 +74,8 @@ def td_proposal(cfg):
         tds = [P.AdaptiveNormal([c], {c: 4.}, adaptation_duration=T) for c in comps]
     elif fam == 'ss_adaptive_normal':
         tds = [P.SSAdaptiveNormal([c]) for c in comps]
+    elif fam == 'bounded_normal':            # not symmetric: the in-model Hastings factor matters
+        tds = [P.BoundedNormal([c], {c: (0., 4.)}, cov=[1.5]) for c in comps]
     else:
         tds = [P.ATAdaptiveNormal([c], adaptation_duration=T) for c in comps]
     if cfg['birth'] == 'uniform':
@@ -101,7 +103,7 @@ def gen(rng, kind=None, allow_annealer=True):
     if kind == 'family':
         cfg['family'] = rng.choice(sorted(ALL))
     elif kind == 'td':
-        cfg.update(td_n=rng.choice([2, 3, 4]), td_family=rng.choice(['normal', 'adaptive_normal', 'ss_adaptive_normal', 'at_adaptive_normal']),
+        cfg.update(td_n=rng.choice([2, 3, 4]), td_family=rng.choice(['normal', 'adaptive_normal', 'ss_adaptive_normal', 'at_adaptive_normal', 'bounded_normal']),
                    birth=rng.choice(['uniform', 'normal', 'lognormal']), successive=rng.random() < 0.5)
     return cfg
 
